@@ -29,6 +29,11 @@ OPT_V = [{"val": "0", "name": "None"}, {"val": "1", "name": "Some"}]
 CF_V = [{"val": "0", "name": "Continue"}, {"val": "1", "name": "Break"}]
 
 
+CTORS = {"core::option::Option::Some": (OPT, "Some"), "core::result::Result::Ok": (RES, "Ok"),
+         "core::result::Result::Err": (RES, "Err"), "core::ops::control_flow::ControlFlow::Continue": (CF, "Continue"),
+         "core::ops::control_flow::ControlFlow::Break": (CF, "Break")}
+
+
 def split_generics(ty):
     """'core::result::Result<A<B, C>, D>' -> ('core::result::Result', ['A<B, C>', 'D'])"""
     i = ty.find("<")
@@ -105,6 +110,12 @@ class _B:
 
     def call_fnlike(self, b, callee, arg_ops, arg_tys, dst, dst_ty, tgt):
         """Call the closure / function item `callee` (descriptor from _callee_of) with the given arguments."""
+        ctor = None if callee["closure"] else CTORS.get(callee["fn"].get("orig") or callee["fn"].get("path"))
+        if ctor is not None and len(arg_ops) == 1:
+            # `.map(Some)`, `.map_err(Err)`: a variant constructor used as a function is the aggregate itself
+            self.wrap(b, dst, ctor[0], ctor[1], arg_ops[0])
+            self.goto(b, tgt)
+            return
         if callee["closure"]:
             tup = self.local("(%s)" % ", ".join(arg_tys))
             self.stmt(b, tup, {"k": "agg", "ak": "tuple", "fields": arg_ops})
